@@ -108,18 +108,6 @@ Definition justified (k : config) (s : state) : Prop :=
 Definition out_ok (k : config) (s : state) : Prop :=
   s_out s = out_cmd k \/ (s_out s = out_cmd k ++ [ONotice] /\ justified k s).
 
-Definition exit_ok (k : config) (s : state) (c : N) : Prop :=
-  (c = 0 /\ c_end (k_cmd k) = Returns /\ out_ok k s) \/
-  (c_end (k_cmd k) = Raises c /\ s_out s = out_cmd k /\ s_delay s = 0) \/
-  (c = 1 /\ k_current k = None /\ c_end (k_cmd k) = Returns /\ s_out s = out_cmd k).
-
-(* what an aborted shutdown still guarantees: stdout as always; it can only happen when the main thread did not see
-   the end of the checker -- the command did not return normally, or the join ran into its timeout *)
-Definition exit_aborted (k : config) (s : state) (c : N) : Prop :=
-  c = abort_status /\ In EFatalShutdown (s_err s) /\ out_ok k s /\
-  (c_end (k_cmd k) = Returns -> s_delay s = k_timeout k) /\
-  (c_end (k_cmd k) <> Returns -> s_delay s = 0 /\ s_out s = out_cmd k).
-
 Definition main_inv (k : config) (s : state) : Prop :=
   match s_main s with
   | MRun r => s_out s ++ map OChunk (emits r) = out_cmd k /\ s_now s + works r = cmd_time k /\ s_delay s = 0
@@ -127,7 +115,9 @@ Definition main_inv (k : config) (s : state) : Prop :=
   | MNotice => s_out s = out_cmd k /\ s_now s = cmd_time k + s_delay s /\ c_end (k_cmd k) = Returns /\ justified k s
   | MReturn => out_ok k s /\ s_now s = cmd_time k + s_delay s /\ c_end (k_cmd k) = Returns
   | MExit c => s_now s = cmd_time k + s_delay s /\
-               ((~ In EFatalShutdown (s_err s) /\ exit_ok k s c) \/ exit_aborted k s c)
+               ((c = 0 /\ c_end (k_cmd k) = Returns /\ out_ok k s) \/
+                (c_end (k_cmd k) = Raises c /\ s_out s = out_cmd k /\ s_delay s = 0) \/
+                (c = 1 /\ k_current k = None /\ c_end (k_cmd k) = Returns /\ s_out s = out_cmd k))
   end.
 
 Definition latest_ok (k : config) (s : state) : Prop :=
@@ -141,28 +131,17 @@ Definition chk_inv (k : config) (s : state) : Prop :=
   | CTag j => s_reply (k_server k) = RResponse true (Some j) /\ got k s /\ s_latest s = PNone
   | CParse t => s_reply (k_server k) = RResponse true (Some (JDict t)) /\ got k s /\ s_latest s = PNone
   | CAssign v => fresh_reply k v /\ got k s /\ s_latest s = PNone
-  | CDying => reply_kills (s_reply (k_server k)) = true /\ got k s /\ s_latest s = PNone
-  | CHandler | CDead => s_latest s = PNone
+  | CHandler => s_latest s = PNone
   | CFinish | CDone => latest_ok k s
   end.
 
-(* once the join has returned before its timeout, the checker thread has ended *)
-Definition joined_inv (k : config) (s : state) : Prop :=
-  match s_main s with
-  | MNeeds | MNotice | MReturn => s_delay s < k_timeout k -> chk_terminated (s_chk s) = true
-  | _ => True
-  end.
-
-Definition err_inv (k : config) (s : state) : Prop :=
-  (In EMainTraceback (s_err s) -> k_current k = None /\ exists c, s_main s = MExit c) /\
-  (In EFatalShutdown (s_err s) -> in_finding_region k = true /\ exists c, s_main s = MExit c).
-
 Definition inv (k : config) (s : state) : Prop :=
-  main_inv k s /\ chk_inv k s /\ s_delay s <= k_timeout k /\ joined_inv k s /\ err_inv k s.
+  main_inv k s /\ chk_inv k s /\ s_delay s <= k_timeout k /\
+  (In EMainTraceback (s_err s) -> k_current k = None /\ s_main s = MExit 1).
 
 Lemma inv_init : forall k, inv k (init k).
 Proof.
-  intros k; unfold inv, main_inv, chk_inv, joined_inv, err_inv, init; simpl.
+  intros k; unfold inv, main_inv, chk_inv, init; simpl.
   repeat split; auto; try lia; try contradiction.
 Qed.
 
@@ -185,6 +164,12 @@ Proof.
     eapply latest_ok_mono; eauto.
 Qed.
 
+Lemma main_inv_chk_step : forall k s s', main_inv k s -> step_chk k s = Some s' -> main_inv k s'.
+Proof.
+  intros k s s' H St; destruct (step_chk_frame _ _ _ St) as [Em [Eo [En Ed]]].
+  unfold main_inv, out_ok, justified in *; rewrite Em, Eo, En, Ed; exact H.
+Qed.
+
 Lemma chk_inv_chk_step : forall k s s', chk_inv k s -> step_chk k s = Some s' -> chk_inv k s'.
 Proof.
   intros k s s' H St; unfold step_chk in St; unfold chk_inv in H.
@@ -194,8 +179,7 @@ Proof.
     destruct (t <=? s_now s) eqn:Et; try discriminate.
     apply N.leb_le in Et.
     assert (G : forall c, got k (set_chk s c)) by (intros; exists t; simpl; auto).
-    destruct (s_reply (k_server k)) eqn:Er; inversion St; subst; unfold chk_inv, chk_die; simpl; auto.
-    rewrite Er; simpl; auto.
+    destruct (s_reply (k_server k)) eqn:Er; inversion St; subst; unfold chk_inv; simpl; auto.
   - destruct H as [H1 [[t [H2 H2']] H3]].
     destruct ok; inversion St; subst; unfold chk_inv; simpl; auto.
     repeat split; auto. exists t; auto.
@@ -203,10 +187,11 @@ Proof.
     destruct b; inversion St; subst; unfold chk_inv; simpl; auto.
     repeat split; auto. exists t; auto.
   - destruct H as [H1 [[t [H2 H2']] H3]].
-    destruct j; inversion St; subst; unfold chk_inv, chk_die; simpl; rewrite ?H1; simpl; repeat split; auto; exists t; auto.
+    destruct j; inversion St; subst; unfold chk_inv; simpl; auto.
+    repeat split; auto. exists t; auto.
   - destruct H as [H1 [[tm [H2 H2']] H3]].
-    destruct t as [| | | [v |]]; inversion St; subst; unfold chk_inv, chk_die, fresh_reply; simpl; rewrite ?H1; simpl;
-      repeat split; auto; exists tm; auto.
+    destruct t as [| | | [v |]]; inversion St; subst; unfold chk_inv; simpl; auto.
+    repeat split; auto. exists tm; auto.
   - destruct H as [H1 [[t [H2 H2']] H3]].
     inversion St; subst; unfold chk_inv, latest_ok; simpl.
     right; exists v; repeat split; auto. exists t; auto.
@@ -214,8 +199,6 @@ Proof.
   - inversion St; subst; unfold chk_inv, latest_ok in *; simpl.
     destruct H as [H | [v [H1 [H2 [t [H3 H4]]]]]]; auto.
     right; exists v; repeat split; auto. exists t; auto.
-  - discriminate.
-  - destruct H as [_ [_ H]]. inversion St; subst; unfold chk_inv; simpl; auto.
   - discriminate.
 Qed.
 
@@ -254,17 +237,8 @@ Proof. intros; rewrite <- app_assoc; reflexivity. Qed.
 Lemma justified_delay : forall k s s', justified k s -> s_delay s' = s_delay s -> justified k s'.
 Proof. intros k s s' H E; unfold justified in *; rewrite E; exact H. Qed.
 
-Lemma out_ok_frame : forall k s s', out_ok k s -> s_out s' = s_out s -> s_delay s' = s_delay s -> out_ok k s'.
-Proof.
-  intros k s s' [H | [H J]] Eo Ed; [left; congruence | right; split; [congruence | eapply justified_delay; eauto]].
-Qed.
-
-Lemma in_snoc_other : forall (e x : eev) l, e <> x -> In e (l ++ [x]) -> In e l.
-Proof. intros e x l N H; apply in_app_or in H as [H | [H | []]]; auto; congruence. Qed.
-
-(* the checker's step: pc / latest / finished / stderr change; its stderr output is its own traceback only *)
-Lemma step_chk_err : forall k s s', step_chk k s = Some s' ->
-  s_err s' = s_err s \/ s_err s' = s_err s ++ [ECheckerTraceback].
+(* the checker thread writes nothing to stderr *)
+Lemma step_chk_err : forall k s s', step_chk k s = Some s' -> s_err s' = s_err s.
 Proof.
   intros k s s' St; unfold step_chk in St.
   repeat match type of St with
@@ -272,150 +246,76 @@ Proof.
          end; inversion St; subst; simpl; auto.
 Qed.
 
-Lemma inv_intro : forall k s, main_inv k s -> chk_inv k s -> s_delay s <= k_timeout k -> joined_inv k s -> err_inv k s -> inv k s.
+Lemma inv_intro : forall k s, main_inv k s -> chk_inv k s -> s_delay s <= k_timeout k ->
+  (In EMainTraceback (s_err s) -> k_current k = None /\ s_main s = MExit 1) -> inv k s.
 Proof. unfold inv; tauto. Qed.
 
 Lemma inv_chk_step : forall k s s', inv k s -> step_chk k s = Some s' -> inv k s'.
 Proof.
-  intros k s s' [Hm [Hc [Hd [Hj [He1 He2]]]]] St.
+  intros k s s' [Hm [Hc [Hd He]]] St.
   destruct (step_chk_frame _ _ _ St) as [Em [Eo [En Ed]]].
-  assert (Hin : forall e, e <> ECheckerTraceback -> In e (s_err s') -> In e (s_err s)).
-  { intros e Ne H. destruct (step_chk_err _ _ _ St) as [E | E]; rewrite E in H; auto. eapply in_snoc_other; eauto. }
   apply inv_intro.
-  - unfold main_inv, exit_ok, exit_aborted, out_ok, justified in *. rewrite Em, Eo, En, Ed.
-    destruct (s_main s); auto.
-    destruct Hm as [H0 [[H1 H2] | [H1 [H2 H3]]]]; split; auto.
-    + left; split; auto. intros H; apply H1, Hin; auto; discriminate.
-    + right. destruct H3 as [H3 [H4 H5]]. split; [auto |]. split; [| split; [auto | split; auto]].
-      destruct (step_chk_err _ _ _ St) as [E | E]; rewrite E; auto. apply in_or_app; auto.
+  - eapply main_inv_chk_step; eauto.
   - eapply chk_inv_chk_step; eauto.
   - rewrite Ed; exact Hd.
-  - unfold joined_inv in *. rewrite Em, Ed.
-    destruct (s_main s); auto; intros H; apply Hj in H;
-      (unfold step_chk in St; destruct (s_chk s); simpl in H; discriminate).
-  - split; intros H; rewrite Em.
-    + apply He1, Hin; auto; discriminate.
-    + apply He2, Hin; auto; discriminate.
-Qed.
-
-Lemma shutdown_cases : forall k s c err,
-  (k_daemon k && holds_stderr (s_chk s) = false /\
-   shutdown k s c err = mkState (MExit c) (s_chk s) (s_latest s) (s_finished s) (s_now s) (s_delay s) (s_out s) err) \/
-  (k_daemon k = true /\ s_chk s = CDying /\
-   shutdown k s c err = mkState (MExit abort_status) (s_chk s) (s_latest s) (s_finished s) (s_now s) (s_delay s) (s_out s) (err ++ [EFatalShutdown])).
-Proof.
-  intros k s c err; unfold shutdown.
-  destruct (k_daemon k && holds_stderr (s_chk s)) eqn:E; [right | left; auto].
-  apply andb_prop in E as [E1 E2]. destruct (s_chk s); try discriminate; auto.
-Qed.
-
-Lemma region_of_dying : forall k s, chk_inv k s -> s_chk s = CDying -> k_daemon k = true -> in_finding_region k = true.
-Proof.
-  intros k s H E D; unfold chk_inv in H; rewrite E in H. destruct H as [H1 [[t [H2 _]] _]].
-  unfold in_finding_region; rewrite D, H2, H1; reflexivity.
+  - rewrite (step_chk_err _ _ _ St), Em; exact He.
 Qed.
 
 Lemma inv_main_step : forall k s s', inv k s -> step_main k s = Some s' -> inv k s'.
 Proof.
-  intros k s s' [Hm [Hc [Hd [Hj [He1 He2]]]]] St.
+  intros k s s' [Hm [Hc [Hd He]]] St.
   assert (Hne : forall c, s_main s = MExit c -> False).
   { intros c E; unfold step_main in St; rewrite E in St; discriminate. }
-  assert (Hm0 : ~ In EMainTraceback (s_err s)).
-  { intros H; destruct (He1 H) as [_ [c E]]; eapply Hne; eauto. }
-  assert (Hf0 : ~ In EFatalShutdown (s_err s)).
-  { intros H; destruct (He2 H) as [_ [c E]]; eapply Hne; eauto. }
-  assert (Herr : forall m, err_inv k (set_main s m)).
-  { intros m; split; simpl; intros H; contradiction. }
-  unfold step_main in St; unfold main_inv in Hm; unfold joined_inv in Hj.
+  assert (He0 : ~ In EMainTraceback (s_err s)).
+  { intros H; destruct (He H) as [_ E]; eapply Hne; eauto. }
+  unfold step_main in St; unfold main_inv in Hm.
   destruct (s_main s) as [r | | | | | c] eqn:Em.
   - destruct r as [| [x | m] r].
     + destruct Hm as [H1 [H2 H3]]. simpl in H1, H2. rewrite app_nil_r in H1. rewrite N.add_0_r in H2.
-      destruct (c_end (k_cmd k)) eqn:Ee.
-      * inversion St; subst; clear St.
-        apply inv_intro; [unfold main_inv; simpl | eapply chk_inv_mono; eauto; simpl; lia | simpl; auto | unfold joined_inv; simpl; auto | apply Herr].
-        repeat split; auto; lia.
-      * destruct (shutdown_cases k s code (s_err s)) as [[G E] | [D [G E]]]; rewrite E in St; inversion St; subst; clear St;
-          (apply inv_intro; [unfold main_inv; simpl | eapply chk_inv_mono; eauto; simpl; lia | simpl; auto | unfold joined_inv; simpl; auto | ]).
-        -- split; [lia |]. left; split; auto. right; left; auto.
-        -- split; simpl; intros H; contradiction.
-        -- split; [lia |]. right. unfold exit_aborted; simpl.
-           split; [reflexivity |]. split; [apply in_or_app; right; simpl; auto |]. split; [left; auto |].
-           split; [intros C; congruence | intros _; auto].
-        -- split; simpl; intros H.
-           ++ apply in_snoc_other in H; [contradiction | discriminate].
-           ++ split; eauto. eapply region_of_dying; eauto.
+      destruct (c_end (k_cmd k)) eqn:Ee; inversion St; subst; clear St;
+        (apply inv_intro; [unfold main_inv; simpl | eapply chk_inv_mono; eauto; simpl; lia | simpl; auto | simpl; tauto]).
+      * repeat split; auto; lia.
+      * split; [lia |]. right; left; auto.
     + destruct Hm as [H1 [H2 H3]]. inversion St; subst; clear St.
-      apply inv_intro; [unfold main_inv; simpl | eapply chk_inv_mono; eauto; simpl; lia | simpl; auto | unfold joined_inv; simpl; auto | ].
-      * repeat split; auto. rewrite app_chunk_assoc. exact H1.
-      * split; simpl; intros H; contradiction.
+      apply inv_intro; [unfold main_inv; simpl | eapply chk_inv_mono; eauto; simpl; lia | simpl; auto | simpl; tauto].
+      repeat split; auto. rewrite app_chunk_assoc. exact H1.
     + destruct Hm as [H1 [H2 H3]]. inversion St; subst; clear St.
-      apply inv_intro; [unfold main_inv; simpl | eapply chk_inv_mono; eauto; simpl; lia | simpl; auto | unfold joined_inv; simpl; auto | ].
-      * repeat split; auto. simpl in H2. lia.
-      * split; simpl; intros H; contradiction.
-  - destruct (chk_terminated (s_chk s) || (k_timeout k <=? s_delay s)) eqn:G; inversion St; subst; clear St.
-    apply inv_intro; [unfold main_inv; simpl; tauto | eapply chk_inv_mono; eauto; simpl; lia | simpl; auto | unfold joined_inv; simpl | apply Herr].
-    intros L. apply orb_prop in G as [G | G]; auto. apply N.leb_le in G. lia.
+      apply inv_intro; [unfold main_inv; simpl | eapply chk_inv_mono; eauto; simpl; lia | simpl; auto | simpl; tauto].
+      repeat split; auto. simpl in H2. lia.
+  - destruct (chk_terminated (s_chk s) || (k_timeout k <=? s_delay s)); inversion St; subst; clear St.
+    apply inv_intro; [unfold main_inv; simpl; tauto | eapply chk_inv_mono; eauto; simpl; lia | simpl; auto | simpl; tauto].
   - destruct Hm as [H1 [H2 H3]].
-    destruct (needs_update (s_latest s) (k_current k)) as [[|] |] eqn:En.
-    + inversion St; subst; clear St.
-      destruct (needs_update_true _ _ Hc En) as [v [t [c [A1 [A2 [A3 [A4 [A5 [A6 A7]]]]]]]]].
-      apply inv_intro; [unfold main_inv; simpl | eapply chk_inv_mono; eauto; simpl; lia | simpl; auto | unfold joined_inv; simpl; auto | apply Herr].
+    destruct (needs_update (s_latest s) (k_current k)) as [[|] |] eqn:En; inversion St; subst; clear St.
+    + destruct (needs_update_true _ _ Hc En) as [v [t [c [A1 [A2 [A3 [A4 [A5 [A6 A7]]]]]]]]].
+      apply inv_intro; [unfold main_inv; simpl | eapply chk_inv_mono; eauto; simpl; lia | simpl; auto | simpl; tauto].
       repeat split; auto.
       exists v, t, c; simpl; repeat split; auto. lia.
-    + inversion St; subst; clear St.
-      apply inv_intro; [unfold main_inv; simpl | eapply chk_inv_mono; eauto; simpl; lia | simpl; auto | unfold joined_inv; simpl; auto | apply Herr].
+    + apply inv_intro; [unfold main_inv; simpl | eapply chk_inv_mono; eauto; simpl; lia | simpl; auto | simpl; tauto].
       repeat split; auto. left; auto.
     + pose proof (needs_update_none _ _ Hc En) as Hcur.
-      destruct (shutdown_cases k s 1 (s_err s ++ [EMainTraceback])) as [[G E] | [D [G E]]]; rewrite E in St; inversion St; subst; clear St;
-        (apply inv_intro; [unfold main_inv; simpl | eapply chk_inv_mono; eauto; simpl; lia | simpl; auto | unfold joined_inv; simpl; auto | ]).
-      * split; auto. left; split.
-        -- intros H; apply in_snoc_other in H; [contradiction | discriminate].
-        -- right; right; auto.
-      * split; simpl; intros H.
-        -- split; eauto.
-        -- apply in_snoc_other in H; [contradiction | discriminate].
-      * split; auto. right. unfold exit_aborted; simpl.
-        split; [reflexivity |]. split; [apply in_or_app; right; simpl; auto |]. split; [left; auto |].
-        split; [intros _ | intros C; congruence].
-        assert (L : ~ s_delay s < k_timeout k).
-        { intros L; apply Hj in L. rewrite G in L; discriminate. }
-        lia.
-      * split; simpl; intros H.
-        -- split; eauto.
-        -- split; eauto. eapply region_of_dying; eauto.
+      apply inv_intro; [unfold main_inv; simpl | eapply chk_inv_mono; eauto; simpl; lia | simpl; auto | simpl; auto].
+      split; auto. right; right; auto.
   - destruct Hm as [H1 [H2 [H3 H4]]]. inversion St; subst; clear St.
-    apply inv_intro; [unfold main_inv; simpl | eapply chk_inv_mono; eauto; simpl; lia | simpl; auto | unfold joined_inv; simpl; auto | ].
-    + repeat split; auto. right; split; [simpl; congruence |]. eapply justified_delay; eauto.
-    + split; simpl; intros H; contradiction.
-  - destruct Hm as [H1 [H2 H3]].
-    destruct (shutdown_cases k s 0 (s_err s)) as [[G E] | [D [G E]]]; rewrite E in St; inversion St; subst; clear St;
-      (apply inv_intro; [unfold main_inv; simpl | eapply chk_inv_mono; eauto; simpl; lia | simpl; auto | unfold joined_inv; simpl; auto | ]).
-    + split; auto. left; split; auto. left; repeat split; auto.
-    + split; simpl; intros H; contradiction.
-    + split; auto. right. unfold exit_aborted; simpl.
-      split; [reflexivity |]. split; [apply in_or_app; right; simpl; auto |]. split; [eapply out_ok_frame; eauto |].
-      split; [intros _ | intros C; congruence].
-      assert (L : ~ s_delay s < k_timeout k).
-      { intros L; apply Hj in L. rewrite G in L; discriminate. }
-      lia.
-    + split; simpl; intros H.
-      * apply in_snoc_other in H; [contradiction | discriminate].
-      * split; eauto. eapply region_of_dying; eauto.
+    apply inv_intro; [unfold main_inv; simpl | eapply chk_inv_mono; eauto; simpl; lia | simpl; auto | simpl; tauto].
+    repeat split; auto. right; split; [simpl; congruence |]. eapply justified_delay; eauto.
+  - destruct Hm as [H1 [H2 H3]]. inversion St; subst; clear St.
+    apply inv_intro; [unfold main_inv; simpl | eapply chk_inv_mono; eauto; simpl; lia | simpl; auto | simpl; tauto].
+    split; auto.
   - discriminate.
 Qed.
 
 Lemma inv_tick_step : forall k s dt s', inv k s -> step_tick k s dt = Some s' -> inv k s'.
 Proof.
-  intros k s dt s' [Hm [Hc [Hd [Hj [He1 He2]]]]] St.
+  intros k s dt s' [Hm [Hc [Hd He]]] St.
   unfold step_tick in St; unfold main_inv in Hm.
   destruct (s_main s) eqn:Em; try discriminate.
   destruct (negb (chk_terminated (s_chk s)) && (s_delay s <? k_timeout k) && (0 <? dt)) eqn:G; try discriminate.
   apply andb_prop in G as [G G3]. apply andb_prop in G as [G1 G2].
   apply N.ltb_lt in G2, G3.
   destruct Hm as [H1 [H2 H3]]. inversion St; subst; clear St.
-  apply inv_intro; [unfold main_inv; simpl | eapply chk_inv_mono; eauto; simpl; lia | simpl; lia | unfold joined_inv; simpl; auto | ].
+  apply inv_intro; [unfold main_inv; simpl | eapply chk_inv_mono; eauto; simpl; lia | simpl; lia | simpl; intros H ].
   - repeat split; auto. lia.
-  - split; simpl; intros H; [apply He1 in H | apply He2 in H]; destruct H as [_ [c H]]; discriminate.
+  - apply He in H. destruct H as [_ H]; discriminate.
 Qed.
 
 Lemma inv_step : forall k s a s', inv k s -> step k s a = Some s' -> inv k s'.
@@ -501,7 +401,7 @@ Definition main_m (m : mpc) : N :=
 Definition chk_m (c : cpc) : N :=
   match c with
   | CGet => 7 | CStatus _ _ => 6 | CJson _ => 5 | CTag _ => 4 | CParse _ => 3 | CAssign _ => 2 | CHandler => 2
-  | CFinish => 1 | CDying => 1 | CDone | CDead => 0
+  | CFinish => 1 | CDone => 0
   end.
 Definition measure (k : config) (s : state) : N := main_m (s_main s) + chk_m (s_chk s) + (k_timeout k - s_delay s).
 
@@ -516,22 +416,17 @@ Proof.
     unfold step_chk in St.
     repeat match type of St with
            | context [match ?x with _ => _ end] => destruct x eqn:?; try discriminate
-           end; inversion St; subst; cbn [s_chk set_chk chk_die chk_m]; lia.
-  - assert (Sh : forall c e, main_m (s_main (shutdown k s c e)) = 0 /\ s_chk (shutdown k s c e) = s_chk s /\ s_delay (shutdown k s c e) = s_delay s).
-    { intros c e; unfold shutdown; destruct (k_daemon k && holds_stderr (s_chk s)); simpl; auto. }
-    assert (H : main_m (s_main s') < main_m (s_main s) /\ s_chk s' = s_chk s /\ s_delay s' = s_delay s).
+           end; inversion St; subst; cbn [s_chk set_chk chk_m]; lia.
+  - assert (H : main_m (s_main s') < main_m (s_main s) /\ s_chk s' = s_chk s /\ s_delay s' = s_delay s).
     { unfold step_main in St. destruct (s_main s) as [r | | | | | c] eqn:Em.
       - destruct r as [| [x | m] r]; [destruct (c_end (k_cmd k)) | |]; inversion St; subst;
-          try (destruct (Sh code (s_err s)) as [S1 [S2 S3]]; rewrite S1, S2, S3);
           cbn [s_main s_chk s_delay set_main main_m length]; repeat split; lia.
       - destruct (chk_terminated (s_chk s) || (k_timeout k <=? s_delay s)); inversion St; subst;
           cbn [s_main s_chk s_delay set_main main_m]; repeat split; lia.
       - destruct (needs_update (s_latest s) (k_current k)) as [[|] |]; inversion St; subst;
-          try (destruct (Sh 1 (s_err s ++ [EMainTraceback])) as [S1 [S2 S3]]; rewrite S1, S2, S3);
           cbn [s_main s_chk s_delay set_main main_m]; repeat split; lia.
       - inversion St; subst; cbn [s_main s_chk s_delay set_main main_m]; repeat split; lia.
-      - inversion St; subst. destruct (Sh 0 (s_err s)) as [S1 [S2 S3]]; rewrite S1, S2, S3.
-        cbn [main_m]; repeat split; lia.
+      - inversion St; subst; cbn [s_main s_chk s_delay set_main main_m]; repeat split; lia.
       - discriminate. }
     destruct H as [H1 [H2 H3]]. unfold measure; rewrite H2, H3. lia.
   - unfold step_tick in St.
@@ -604,25 +499,14 @@ Lemma has_notice_app : forall a b, has_notice (a ++ b) = has_notice a || has_not
 Proof. intros; unfold has_notice; apply existsb_app. Qed.
 
 Lemma exit_facts : forall k s c, reach k s -> s_main s = MExit c -> k_current k <> None ->
-  ((~ In EFatalShutdown (s_err s) /\ c = cmd_exit k) \/
-   (In EFatalShutdown (s_err s) /\ c = abort_status /\ in_finding_region k = true /\
-    (c_end (k_cmd k) = Returns -> s_delay s = k_timeout k))) /\
-  out_ok k s /\ s_now s = cmd_time k + s_delay s /\ s_delay s <= k_timeout k /\
+  c = cmd_exit k /\ out_ok k s /\ s_now s = cmd_time k + s_delay s /\ s_delay s <= k_timeout k /\
   (c_end (k_cmd k) <> Returns -> s_delay s = 0 /\ s_out s = out_cmd k).
 Proof.
-  intros k s c R Em Hcur. destruct (reach_inv _ _ R) as [Hm [_ [Hd [_ [_ He2]]]]].
-  unfold main_inv in Hm; rewrite Em in Hm.
-  destruct Hm as [Hn [[Hf [[A [B C]] | [[A [B C]] | [A [B _]]]]] | [A [B [C [D E]]]]]].
-  - subst; split; [left; split; auto; unfold cmd_exit; rewrite B; auto |]. repeat split; auto; congruence.
-  - split; [left; split; auto; unfold cmd_exit; rewrite A; auto |]. repeat split; auto. left; auto.
+  intros k s c R Em Hcur. destruct (reach_inv _ _ R) as [Hm [_ [Hd _]]].
+  unfold main_inv in Hm; rewrite Em in Hm. destruct Hm as [Hn [[A [B C]] | [[A [B C]] | [A [B _]]]]].
+  - subst; unfold cmd_exit; rewrite B; repeat split; auto; congruence.
+  - unfold cmd_exit; rewrite A; repeat split; auto. left; auto.
   - contradiction.
-  - split; [right; repeat split; auto; apply He2; auto |]. repeat split; auto; apply E; auto.
-Qed.
-
-Lemma region_false_no_fatal : forall k s, reach k s -> in_finding_region k = false -> ~ In EFatalShutdown (s_err s).
-Proof.
-  intros k s R F H. destruct (reach_inv _ _ R) as [_ [_ [_ [_ [_ He2]]]]].
-  destruct (He2 H) as [T _]. congruence.
 Qed.
 
 Lemma server_eta : forall srv a r, s_after srv = a -> s_reply srv = r -> srv = mkServer a r.
@@ -641,27 +525,8 @@ Section Runs.
   Lemma run_reach : reach k s.
   Proof. apply reach_run, reach_init. Qed.
 
-  (* full strength is FALSE for the code as it stands (see exit_code_refuted); what holds for every server and every
-     schedule: the command's status, or an abort at shutdown -- and then only with a dying checker that was not joined *)
-  Lemma run_exit_code_or_abort : forall c, k_current k <> None -> s_main s = MExit c ->
-    c = cmd_exit k \/
-    (c = abort_status /\ In EFatalShutdown (s_err s) /\ in_finding_region k = true /\
-     (c_end (k_cmd k) = Returns -> s_delay s = k_timeout k)).
-  Proof.
-    intros c H E. destruct (exit_facts _ _ _ run_reach E H) as [[[_ A] | [A [B [C D]]]] _]; auto.
-  Qed.
-
-  Lemma run_exit_code_partial : forall c, k_current k <> None -> in_finding_region k = false ->
-    s_main s = MExit c -> c = cmd_exit k.
-  Proof.
-    intros c H F E. destruct (run_exit_code_or_abort c H E) as [A | [_ [_ [A _]]]]; auto; congruence.
-  Qed.
-
-  Lemma run_exit_code_no_fatal : forall c, k_current k <> None -> ~ In EFatalShutdown (s_err s) ->
-    s_main s = MExit c -> c = cmd_exit k.
-  Proof.
-    intros c H F E. destruct (run_exit_code_or_abort c H E) as [A | [_ [A _]]]; auto; contradiction.
-  Qed.
+  Lemma run_exit_code : forall c, k_current k <> None -> s_main s = MExit c -> c = cmd_exit k.
+  Proof. intros c H E; exact (proj1 (exit_facts _ _ _ run_reach E H)). Qed.
 
   Lemma run_stdout :
     (exists r, s_main s = MRun r /\ s_out s ++ map OChunk (emits r) = out_cmd k) \/
@@ -675,9 +540,7 @@ Section Runs.
     - right; split; [congruence | tauto].
     - right; split; [congruence |]. destruct Hm as [[H | [H _]] _]; auto.
     - right; split; [congruence |].
-      assert (O : out_ok k s).
-      { destruct Hm as [_ [[_ [[_ [_ H]] | [[_ [H _]] | [_ [_ [_ H]]]]]] | [_ [_ [H _]]]]]; auto; left; auto. }
-      destruct O as [H | [H _]]; auto.
+      destruct Hm as [_ [[_ [_ [H | [H _]]]] | [[_ [H _]] | [_ [_ [_ H]]]]]]; auto.
   Qed.
 
   Lemma run_notice_only_if : In ONotice (s_out s) ->
@@ -698,9 +561,7 @@ Section Runs.
       - exfalso; tauto.
       - tauto.
       - destruct Hm as [[H | [_ H]] _]; auto. exfalso; auto.
-      - assert (O : out_ok k s).
-        { destruct Hm as [_ [[_ [[_ [_ H]] | [[_ [H _]] | [_ [_ [_ H]]]]]] | [_ [_ [H _]]]]]; auto; left; auto. }
-        destruct O as [H | [_ H]]; auto. exfalso; auto. }
+      - destruct Hm as [_ [[_ [_ [H | [_ H]]]] | [[_ [H _]] | [_ [_ [_ H]]]]]]; auto; exfalso; auto. }
     destruct J as [v [t [c [A1 [A2 [A3 [A4 [A5 [A6 [A7 A8]]]]]]]]]].
     exists v, t, c. repeat split; auto.
     - apply server_eta; auto.
@@ -712,31 +573,40 @@ Section Runs.
     (forall c, s_main s = MExit c -> s_now s = cmd_time k + s_delay s) /\
     (c_end (k_cmd k) <> Returns -> s_delay s = 0).
   Proof.
-    destruct (reach_inv _ _ run_reach) as [Hm [_ [Hd _]]]. unfold main_inv, exit_ok, exit_aborted in Hm.
+    destruct (reach_inv _ _ run_reach) as [Hm [_ [Hd _]]]. unfold main_inv in Hm.
     destruct (s_main s) as [r | | | | | c] eqn:Em; (split; [exact Hd |]); (split; [lia |]); split;
-      try (intros c' E; discriminate E); try tauto.
+      try (intros c' E; discriminate E); tauto.
   Qed.
 
   Lemma run_no_deadlock : k_daemon k = true -> process_over k s = false -> exists a s', step k s a = Some s'.
   Proof. intros; apply no_deadlock; auto. Qed.
 
-  Lemma run_isolated : k_current k <> None ->
-    ~ In EMainTraceback (s_err s) /\ (forall b, s_latest s <> PStr b) /\
-    (s_chk s = CDying \/ s_chk s = CDead -> s_latest s = PNone).
+  (* nothing the checker does surfaces: it writes nothing to stderr, never leaves a raw string behind, and every failure
+     ends in the handler with latest_version still None *)
+  Lemma run_isolated :
+    (k_current k <> None -> s_err s = []) /\ (forall b, s_latest s <> PStr b) /\ (s_chk s = CHandler -> s_latest s = PNone).
   Proof.
-    intros Hcur. destruct (reach_inv _ _ run_reach) as [_ [Hc [_ [_ [He _]]]]].
+    destruct (reach_inv _ _ run_reach) as [_ [Hc [_ He]]].
     repeat split.
-    - intros H; apply He in H; tauto.
+    - intros Hcur. destruct (s_err s) as [| [] l] eqn:E; auto.
+      exfalso; apply Hcur, He; simpl; auto.
     - intros b E. destruct (chk_inv_latest _ _ Hc) as [H | [v [H _]]]; congruence.
-    - intros [E | E]; unfold chk_inv in Hc; rewrite E in Hc; tauto.
+    - intros E. unfold chk_inv in Hc; rewrite E in Hc; exact Hc.
   Qed.
 End Runs.
 
 Lemma step_checker_frame : forall k s s', step k s AChk = Some s' ->
-  s_main s' = s_main s /\ s_out s' = s_out s /\ s_now s' = s_now s /\ s_delay s' = s_delay s.
+  s_main s' = s_main s /\ s_out s' = s_out s /\ s_now s' = s_now s /\ s_delay s' = s_delay s /\ s_err s' = s_err s.
 Proof.
   intros k s s' H; unfold step in H. destruct (process_over k s); try discriminate.
-  eapply step_chk_frame; eauto.
+  destruct (step_chk_frame _ _ _ H) as [A [B [C D]]]. repeat split; auto. eapply step_chk_err; eauto.
+Qed.
+
+(* the checker thread cannot end in any other way than by returning from run() *)
+Lemma checker_always_finishes : forall k s, s_chk s <> CDone -> s_chk s <> CGet -> exists s', step_chk k s = Some s'.
+Proof.
+  intros k s H1 H2; unfold step_chk.
+  destruct (s_chk s) as [| ok b | [j |] | [| t] | [| | | [v |]] | v | | |]; try congruence; eauto.
 Qed.
 
 Lemma no_infinite_run : forall k l s, trace k (init k) l = Some s ->
@@ -751,26 +621,22 @@ Qed.
 Lemma maximal_run_ends_in_exit : forall k l s, k_daemon k = true -> trace k (init k) l = Some s -> stuck k s ->
   exists c, s_main s = MExit c /\
     (k_current k <> None ->
-       (c = cmd_exit k \/ c = abort_status /\ in_finding_region k = true) /\
-       (s_out s = out_cmd k \/ s_out s = out_cmd k ++ [ONotice]) /\ s_delay s <= k_timeout k).
+       c = cmd_exit k /\ (s_out s = out_cmd k \/ s_out s = out_cmd k ++ [ONotice]) /\ s_delay s <= k_timeout k).
 Proof.
   intros k l s D T St. pose proof (stuck_over _ _ D St) as P.
   unfold process_over in P. destruct (s_main s) as [| | | | | c] eqn:Em; try discriminate.
   exists c; split; auto. intros Hcur.
   assert (R : reach k s) by (eapply reach_trace; eauto using reach_init).
   destruct (exit_facts _ _ _ R Em Hcur) as [A [B [_ [C _]]]].
-  repeat split; auto.
-  - destruct A as [[_ A] | [_ [A1 [A2 _]]]]; auto.
-  - destruct B as [B | [B _]]; auto.
+  repeat split; auto. destruct B as [B | [B _]]; auto.
 Qed.
 
-(* any two complete runs of the same command -- whatever the two servers do, whatever the schedules -- end with the
-   same command output, and with the same exit status unless one of them aborted at shutdown *)
+(* any two complete runs of the same command -- whatever the two servers do, whatever the schedules -- end with the same
+   exit status and the same command output *)
 Lemma same_as_reference : forall k1 k2 l1 l2 c1 c2,
   k_cmd k1 = k_cmd k2 -> k_current k1 <> None -> k_current k2 <> None ->
   s_main (run k1 (init k1) l1) = MExit c1 -> s_main (run k2 (init k2) l2) = MExit c2 ->
-  chunks_of (s_out (run k1 (init k1) l1)) = chunks_of (s_out (run k2 (init k2) l2)) /\
-  (~ In EFatalShutdown (s_err (run k1 (init k1) l1)) -> ~ In EFatalShutdown (s_err (run k2 (init k2) l2)) -> c1 = c2).
+  c1 = c2 /\ chunks_of (s_out (run k1 (init k1) l1)) = chunks_of (s_out (run k2 (init k2) l2)).
 Proof.
   intros k1 k2 l1 l2 c1 c2 Ec H1 H2 E1 E2.
   destruct (exit_facts _ _ _ (run_reach k1 l1) E1 H1) as [A1 [B1 _]].
@@ -780,65 +646,27 @@ Proof.
     - apply chunks_of_out_cmd.
     - rewrite chunks_of_app, chunks_of_out_cmd; simpl; apply app_nil_r. }
   split.
+  - subst; unfold cmd_exit; rewrite Ec; reflexivity.
   - rewrite (Ch _ _ B1), (Ch _ _ B2). unfold cmd_chunks; rewrite Ec; reflexivity.
-  - intros F1 F2. destruct A1 as [[_ A1] | [A1 _]]; [| contradiction]. destruct A2 as [[_ A2] | [A2 _]]; [| contradiction].
-    subst; unfold cmd_exit; rewrite Ec; reflexivity.
-Qed.
-
-(* the eager scheduler never lets the main thread move while the checker can: no shutdown with a dying checker *)
-Lemma eager_no_fatal : forall k f s, ~ In EFatalShutdown (s_err s) -> ~ In EFatalShutdown (s_err (snd (eager k f s))).
-Proof.
-  intros k f; induction f as [| f IH]; intros s H; simpl; auto.
-  destruct (step k s (eager_action k s)) as [s' |] eqn:E; simpl; auto.
-  specialize (IH s'). destruct (eager k f s') as [l z]; simpl in *. apply IH. clear IH.
-  unfold step in E. destruct (process_over k s); try discriminate.
-  unfold eager_action in E.
-  destruct (step_chk k s) as [s1 |] eqn:Ec.
-  - simpl in E; inversion E; subst.
-    destruct (step_chk_err _ _ _ Ec) as [X | X]; rewrite X; auto.
-    intros Y; apply in_snoc_other in Y; auto; discriminate.
-  - assert (Hd : holds_stderr (s_chk s) = false).
-    { unfold step_chk in Ec. destruct (s_chk s); try reflexivity; discriminate. }
-    destruct (step_main k s) as [s2 |] eqn:Em.
-    + simpl in E; inversion E; subst. clear E.
-      assert (Sh : forall c e, ~ In EFatalShutdown e -> ~ In EFatalShutdown (s_err (shutdown k s c e))).
-      { intros c e He; unfold shutdown; rewrite Hd, andb_false_r; simpl; auto. }
-      unfold step_main in Em.
-      repeat match type of Em with
-             | context [match ?x with _ => _ end] => destruct x; try discriminate
-             end; inversion Em; subst; simpl; auto; apply Sh; auto.
-      intros Y; apply in_snoc_other in Y; auto; discriminate.
-    + unfold step_tick in E. destruct (s_main s); try discriminate.
-      match type of E with context [if ?c then _ else _] => destruct c end; try discriminate.
-      inversion E; subst; simpl; auto.
 Qed.
 
 Lemma predict_sound : forall k o, predict k = Some o -> k_current k <> None ->
-  o_exit o = cmd_exit k /\ o_chunks o = cmd_chunks k /\ o_delay o <= k_timeout k /\
-  ~ In EMainTraceback (o_err o) /\ ~ In EFatalShutdown (o_err o) /\
+  o_exit o = cmd_exit k /\ o_chunks o = cmd_chunks k /\ o_delay o <= k_timeout k /\ o_err o = [] /\
   (o_notice o = true ->
      exists v t c, k_server k = mkServer (Some t) (RResponse true (Some (JDict (TagText (Some v))))) /\
                    t <= cmd_time k + o_delay o /\ k_current k = Some c /\ ver_cmp c v = Lt /\
                    v_pre v = None /\ v_dev v = None /\ c_end (k_cmd k) = Returns).
 Proof.
-  intros k o H Hcur.
-  assert (NF : ~ In EFatalShutdown (o_err o)).
-  { unfold predict in H.
-    pose proof (eager_no_fatal k (eager_fuel k) (init k)) as F.
-    destruct (s_main (snd (eager k (eager_fuel k) (init k)))); try discriminate.
-    destruct (process_over k (snd (eager k (eager_fuel k) (init k)))); try discriminate.
-    inversion H; subst; simpl. apply F. simpl; auto. }
-  destruct (predict_is_run _ _ H) as [l [s [c [T [Em [P E]]]]]].
+  intros k o H Hcur. destruct (predict_is_run _ _ H) as [l [s [c [T [Em [P E]]]]]].
   pose proof (trace_run _ _ _ _ T) as Er.
   assert (R : reach k s) by (eapply reach_trace; eauto using reach_init).
   destruct (exit_facts _ _ _ R Em Hcur) as [A [B [_ [C _]]]].
-  subst o; unfold observe in *; simpl in *.
+  subst o; unfold observe; simpl.
   repeat split; auto.
-  - destruct A as [[_ A] | [A _]]; auto; contradiction.
   - destruct B as [B | [B _]]; rewrite B; unfold out_cmd.
     + apply chunks_of_out_cmd.
     + rewrite chunks_of_app, chunks_of_out_cmd; simpl; apply app_nil_r.
-  - rewrite <- Er. apply (run_isolated k l Hcur).
+  - rewrite <- Er. apply (run_isolated k l); auto.
   - intros Hn.
     assert (Hin : In ONotice (s_out s)).
     { unfold has_notice in Hn. apply existsb_exists in Hn as [x [Hx Hy]]. destruct x; try discriminate; auto. }
